@@ -19,13 +19,13 @@ TECHNIQUE = "per-variable differential between the transpiled model and an evalu
 RULE = ("documents of 3 kinds: (table) the exhaustive depth-2 table outer x position x inner over + - * / ^ MOD and unary minus, IF/THEN/ELSE with "
         "compound comparison operands, AND/OR chains, NOT(...), each built-in (ABS MIN MAX INT SQRT EXP LN LOG10 SIN COS TAN SAFEDIV ROUND PERCENT "
         "STEP RAMP SINWAVE COSWAVE PULSE) with compound arguments, in 4 spellings; (random) seeded trees to depth 5 in 2 spellings with 7 variable-name shapes "
-        "(plain, underscore, space, quoted, upper, mixed case, digit suffix); comparisons of exactly equal operands and literals with up to 10 significant digits are included; (loud) one out-of-grammar equation per document: unknown function, "
+        "(plain, underscore, space, quoted, upper, mixed case, digit suffix); comparisons of exactly equal operands and literals with up to 10 significant digits are included; every third document repeats all variables with the same equation texts and other constant values in two named modules (names resolve inside their own model); (loud) one out-of-grammar equation per document: unknown function, "
         "dangling operator, unbalanced parentheses, unknown identifier, keyword misuse. programs = documents compiled; distinct_nontrivial = "
         "distinct (outer, position, inner) / tree digests whose value changes if compound operands are pasted without parentheses.")
 ASSUMPTIONS = ["^ binds tighter than unary minus, which binds tighter than * / MOD; chains of ^ are always printed with explicit parentheses",
                "MOD is judged for positive operands only; ROUND away from .5; STEP(h,t0)=h for t>=t0; RAMP(s,t0)=s*(t-t0) for t>t0",
                "boolean conditions are generated as OR-of-AND chains of comparisons (the grammar has no parenthesised boolean groups)"]
-REQUIRED = {"documents_compiled": 20, "variables_compared": 1000, "loud_cases": 8, "ir_nodes_seen": 1000}
+REQUIRED = {"documents_with_modules": 5, "documents_compiled": 20, "variables_compared": 1000, "loud_cases": 8, "ir_nodes_seen": 1000}
 BUDGET_S = {"quick": 110, "thorough": 1500}
 
 CLOCKVAR = ("clock var", "TIME*2 + 1", lambda t: t * 2 + 1)     # a variable that moves with time (INIT / DELAY of a reference)
@@ -203,7 +203,7 @@ def leaf(rng):
     if r < 0.65:
         return rng.choice(REFS)
     if r < 0.85:
-        return ["num", rng.choice([2.0, 0.25, 3.0, 10.0, 1.5, 1234.5678, 3.14159265, 0.000123456789])]
+        return ["num", rng.choice([2.0, 0.25, 3.0, 10.0, 1.5, 1234.5678, 3.14159265, 0.000123456789, -2.0, -0.5, -3.0])]
     if r < 0.91:
         return ["time"]
     if r < 0.94:
@@ -311,6 +311,17 @@ def table():
             out.append(("%s@0-%s" % (nm, op), ["bin", op, [nm], B]))
             out.append(("%s@1-%s" % (nm, op), ["bin", op, A, [nm]]))
         out.append(("neg-%s" % nm, ["bin", "**", ["neg", [nm]], ["num", 2.0]]))
+    # negative literals (always written in parentheses unless they start the equation) in every operand position
+    for lit in (-2.0, -0.5, -3.0):
+        L = ["num", lit]
+        for op in BIN:
+            out.append(("neglit%g@0-%s" % (lit, op), ["bin", op, L, ["num", 2.0]]))
+            out.append(("neglit%g@1-%s" % (lit, op), ["bin", op, A, L]))
+            out.append(("neglit%g@0-%s-in-product" % (lit, op), ["bin", "*", B, ["bin", op, L, ["num", 2.0]]]))
+        out.append(("neglit%g-power-in-if" % lit, ["if", ["cmp", ">", ["bin", "**", L, ["num", 2.0]], ["num", 0.0]], D, E]))
+        out.append(("neglit%g-double-parens" % lit, ["bin", "-", A, ["bin", "**", ["bin", "*", L, ["num", 1.0]], ["num", 2.0]]]))
+        for f in ("ABS", "MIN"):
+            out.append(("neglit%g-in-%s" % (lit, f), ["call", f, L] if f == "ABS" else ["call", f, L, B]))
     for k_ in range(0, 7):
         out.append(("FACTORIAL-%d" % k_, ["bin", "-", A, ["call", "FACTORIAL", ["num", float(k_)]]]))
     c1, c2, c3 = ["cmp", "<", A, B], ["cmp", ">", ["bin", "+", B, C], D], ["cmp", "==", C, C]
@@ -375,10 +386,10 @@ LOUD = [("unknown-function", "FOO(alpha) + 1"), ("unknown-function-nested", "alp
 
 
 def gen_cases(tier, seed):
-    cases = [dict(kind="table", style=i, part=p, parts=3) for i in range(4) for p in range(3)]
+    cases = [dict(kind="table", style=i, part=p, parts=3, modules=(i + p) % 3 == 0) for i in range(4) for p in range(3)]
     rng = random.Random(300 + seed)
     for i in range(36 if tier == "quick" else 2400):
-        cases.append(dict(kind="random", seed=rng.randrange(10 ** 9), n=24))
+        cases.append(dict(kind="random", seed=rng.randrange(10 ** 9), n=24, modules=(i % 3 == 0)))
     for name, eqn in LOUD:
         cases.append(dict(kind="loud", name=name, eqn=eqn))
     return cases
@@ -496,8 +507,22 @@ def run_case(case):
         kept.append((vn, key, tree, sidx))
         els.append(dict(kind="aux", name=vn, eqn=txt))
     eqs = kept
+    # every third document repeats all its variables, with the same equation texts but other constant values, in two named
+    # modules: an unqualified name resolves inside the model that contains the equation
+    scopes = [("", vals)]
+    modules = None
+    if case.get("modules"):
+        modules = {}
+        for mname, (fa, fb) in (("North", (1.5, 0.25)), ("South Wing", (0.5, 1.0))):
+            mvals = {n: v * fa + (fb if v >= 0 else -fb) for n, v in CONSTS}
+            mvals["alpha_twin"] = mvals["alpha"]
+            mels = [dict(kind="aux", name=n, eqn=(repr(mvals[n]) if mvals[n] >= 0 else "0 - %r" % abs(mvals[n]))) for n, v in CONSTS] + \
+                   [dict(kind="aux", name=CLOCKVAR[0], eqn=CLOCKVAR[1])] + [dict(kind="aux", name=vn, eqn=printed[vn]) for (vn, key, tree, sidx) in eqs]
+            modules[mname] = mels
+            scopes.append((sname(mname) + ".", mvals))
+        counters["documents_with_modules"] = 1
     try:
-        cls, src, dest = XM.compile_and_load(XM.document(mod, RUN, els), "xm", mod)
+        cls, src, dest = XM.compile_and_load(XM.document(mod, RUN, els, modules=modules), "xm", mod)
         m = cls()
     except Exception as e:
         cleanup(mod)
@@ -510,10 +535,10 @@ def run_case(case):
     w = None
     groups = {}
     try:
-        for (vn, key, tree, sidx) in eqs:
+        for (scope, svals), (vn, key, tree, sidx) in [(sc, e) for sc in scopes for e in eqs]:
             for t in TIMES:
                 try:
-                    ref, dist = ev_x(tree, vals, t)
+                    ref, dist = ev_x(tree, svals, t)
                     if dist < 1e-6 or isinstance(ref, bool):
                         raise X.IllConditioned("near discontinuity")
                 except X.IllConditioned:
@@ -523,16 +548,16 @@ def run_case(case):
                     counters["illcond"] = counters.get("illcond", 0) + 1
                     continue
                 try:
-                    got = m.equation(sname(vn), t)
+                    got = m.equation(scope + sname(vn), t)
                 except Exception as e:
-                    w = dict(kind="in-grammar-equation-raises", equation=printed[vn], tree=X.show(tree), t=t, error="%s: %s" % (type(e).__name__, str(e)[:150]))
+                    w = dict(kind="in-grammar-equation-raises", scope=scope, equation=printed[vn], tree=X.show(tree), t=t, error="%s: %s" % (type(e).__name__, str(e)[:150]))
                     break
                 counters["variables_compared"] = counters.get("variables_compared", 0) + 1
                 if not X.close(got, ref, rel=1e-9, ab=1e-10):
-                    w = dict(kind="value", key=key, equation=printed[vn], style=STYLES[sidx], tree=X.show(tree), t=t, got=float(got), expected=ref,
+                    w = dict(kind="value", key=key, scope=scope, equation=printed[vn], style=STYLES[sidx], tree=X.show(tree), t=t, got=float(got), expected=ref,
                              python=getattr(m, "equations", {}).get(sname(vn)) and "see generated module")
                     break
-                if naive_differs(tree, vals, t, ref) if all(n[0] in ("bin", "neg", "num", "ref", "time") for n in [tree]) else True:
+                if naive_differs(tree, svals, t, ref) if all(n[0] in ("bin", "neg", "num", "ref", "time") for n in [tree]) else True:
                     nts.append(key or ("tree:" + X.show(tree)))
             if w:
                 break
